@@ -724,6 +724,16 @@ void f_range (int code) {
         from = (--sp)->u.number;
         if (code & 0x10)
           from = v->size - from;
+        /* cut the 64-bit bounds down to the array before they are narrowed to int */
+        if (from < 0)
+          from = 0;
+        if (to >= v->size)
+          to = v->size - 1;
+        if (from > to)
+          {
+            from = 0;
+            to = -1;
+          }
         put_array (slice_array (v, (int)from, (int)to));
         break;
       }
@@ -809,6 +819,10 @@ void f_extract_range (int code) {
         from = (--sp)->u.number;
         if (code)
           from = v->size - from;
+        if (from < 0)
+          from = 0;
+        if (from > v->size)
+          from = v->size;	/* (before the 64-bit bound is narrowed to int) */
         put_array (slice_array (v, (int)from, (int)(v->size - 1)));
         break;
       }
